@@ -4,6 +4,7 @@ import (
 	"context"
 	"fmt"
 	"path/filepath"
+	"runtime"
 	"strings"
 	"sync"
 	"sync/atomic"
@@ -349,6 +350,7 @@ func TestVP_C25_LastSlot(t *testing.T) {
 					defer wg.Done()
 					ready.Add(1)
 					for ready.Load() < int64(g) {
+						runtime.Gosched() // yield: more spinners than cores must not starve the late ones
 					}
 					var err error
 					if viaNew {
